@@ -133,7 +133,7 @@ pub unsafe fn reset() {
     AT_EXEC = None;
     AT_EXIT = None;
     AT_BLOCKING_WAIT = None;
-    ALLOCS = 0;
+    VK_ALLOCS = 0;
     ALLOC_AT_FORK = 0;
     BOUNDARY_CLOEXEC = false;
     CUT_AT = 0;
@@ -183,7 +183,7 @@ pub unsafe extern "C" fn fork() -> pid_t {
     if CHILD_AT_FORK == FORKS {
         IN_CHILD = true;
         FDT_AT_FORK = FDT;
-        ALLOC_AT_FORK = ALLOCS;
+        ALLOC_AT_FORK = VK_ALLOCS;
         kani::cover!(true, "COVER/fork-child-role");
         return 0;
     }
@@ -245,7 +245,7 @@ pub unsafe fn child_step_called(s: Step) {
     // C07: after a failed child-side step nothing else may run
     vcheck!(C07, !CHILD_FAILED, "C07/no-step-after-failure: a child-side step ran after an earlier step had failed");
     // C17: no allocation between fork and any child-side call
-    vcheck!(C17, ALLOCS == ALLOC_AT_FORK, "C17/no-alloc-before-step: heap allocation between fork and a child-side call");
+    vcheck!(C17, VK_ALLOCS == ALLOC_AT_FORK, "C17/no-alloc-before-step: heap allocation between fork and a child-side call");
     STEPS_SEEN |= 1 << (s as u16);
 }
 
@@ -617,7 +617,7 @@ pub unsafe fn exec_time_checks() {
     vcheck!(C18, sig::MASK == 0, "C18/mask-empty: child starts its program with a non-empty signal mask");
     vcheck!(C18, !sig::SIGPIPE_IGNORED, "C18/sigpipe-default: child starts its program with SIGPIPE not at default");
     // ---- C17: no allocation since fork
-    vcheck!(C17, ALLOCS == ALLOC_AT_FORK, "C17/no-alloc-before-exec: heap allocation between fork and exec");
+    vcheck!(C17, VK_ALLOCS == ALLOC_AT_FORK, "C17/no-alloc-before-exec: heap allocation between fork and exec");
     // ---- C07: exec only if nothing failed before
     vcheck!(C07, !CHILD_FAILED, "C07/no-exec-after-failure: exec reached although an earlier child-side step failed");
 }
@@ -662,7 +662,7 @@ pub unsafe extern "C" fn _exit(status: c_int) -> ! {
         None => true,
     };
     vcheck!(C07, status_w_open, "C07/report-channel-open: the status channel was closed before the report");
-    vcheck!(C17, ALLOCS == ALLOC_AT_FORK, "C17/no-alloc-before-exit: heap allocation in the child between fork and _exit");
+    vcheck!(C17, VK_ALLOCS == ALLOC_AT_FORK, "C17/no-alloc-before-exit: heap allocation in the child between fork and _exit");
     if let Some(f) = AT_EXIT {
         f();
     }
@@ -673,7 +673,7 @@ pub unsafe extern "C" fn _exit(status: c_int) -> ! {
 
 // launch-status pipe, child side
 pub unsafe fn status_pipe_write(buf: *const u8, n: usize) -> ssize_t {
-    vcheck!(C17, ALLOCS == ALLOC_AT_FORK, "C17/no-alloc-before-report: heap allocation in the child before the error report");
+    vcheck!(C17, VK_ALLOCS == ALLOC_AT_FORK, "C17/no-alloc-before-report: heap allocation in the child before the error report");
     let mut i = 0;
     while i < n && STATUS_WRITTEN_LEN < 8 {
         STATUS_WRITTEN[STATUS_WRITTEN_LEN] = *buf.add(i);
@@ -805,8 +805,11 @@ pub unsafe extern "C" fn kill(pid: pid_t, sig: c_int) -> c_int {
 
 // ------------------------------------------------------ allocations -------
 
-/// Allocation observer (C17): counts calls of the stubbed std::alloc entry points.
-pub static mut ALLOCS: u32 = 0;
+/// Allocation observer (C17): bumped by Kani's C model of __rust_alloc /
+/// __rust_alloc_zeroed / __rust_realloc (one line added to each at link time,
+/// see vlib/kani.py instrumented_kani_lib).
+#[no_mangle]
+pub static mut VK_ALLOCS: u32 = 0;
 pub static mut ALLOC_AT_FORK: u32 = 0;
 
 // --------------------------------------------- boundary invariants --------
